@@ -157,8 +157,22 @@ def run(tier, seed):
     # run implementation
     reqs = []
     impl_results = []
+    from skepticoin import datatypes as D
+    whole = {'tx': D.Transaction, 'block': D.Block, 'header': D.BlockHeader}
     for tname, bs, origin in cases:
         res, obj = impl_decode(types, tname, bs)
+        if tname in whole and res is not None and res[0] == 1:
+            # the whole-buffer API (X.deserialize(bytes)) must assign the same id as the stream decoder
+            try:
+                o2 = whole[tname].deserialize(bs)
+                want = sha256d(res[2]) if tname != 'block' else res[5]
+                if o2.hash() != want:
+                    ck.violation('%s-id-not-hash-of-canonical-encoding' % tname, '%s.deserialize(bytes) assigns an id that is '
+                                 'not the double SHA-256 of the canonical encoding' % whole[tname].__name__,
+                                 {'type': tname, 'bytes': bs.hex(), 'origin': origin + '/deserialize'})
+            except Exception as e:
+                ck.violation('deserialize-api-differs', '%s.deserialize refuses bytes the stream decoder accepts (%s)'
+                             % (whole[tname].__name__, type(e).__name__), {'type': tname, 'bytes': bs.hex(), 'origin': origin})
         ok = res is not None and res[0] == 1
         ck.case((tname, bs), nontrivial=True, kind='%s:%s:%s' % (tname, origin if origin in ('valid', 'exhaustive', 'random') else 'mutated', 'accept' if ok else 'reject'),
                 sample={'type': tname, 'bytes': bs.hex()[:120], 'origin': origin, 'accepted': ok}
